@@ -233,7 +233,14 @@ def monitors(ctx: Ctx, sc: dict, obs: dict, iv: dict) -> None:
         if k in IN_GRACE_H1 or k == "trigger_request":
             full = [r for r in p["responses"] if r["status"] == 200 and r["complete"]]
             if not full:
-                viol("in_grace_delivered", k, {"responses": p["responses"], "trigger_at": T})
+                # "requests that finish within the grace period": judged on the application's own record of when it had handed
+                # its whole response to the server.  On an overloaded machine a short request can really take longer than the
+                # grace period; the server is then right to cancel it (recorded, not judged).
+                done = [t for t, kk, pth in iv["ends"] if kk == "http_done" and str(pth).endswith(f"/{cid}")]
+                if done and min(done) <= T + G - 0.03:
+                    viol("in_grace_delivered", k, {"responses": p["responses"], "trigger_at": T, "application_done_at": min(done)})
+                else:
+                    ctx.count("not_judged", f"in_grace_delivered:{k}:application_not_done_within_grace")
         if k in IN_GRACE_H1:
             # ... and that was the last request of this connection: nothing that was not in progress at the trigger is
             # answered (a request pipelined behind it, or sent after the trigger), and the connection - idle from then
